@@ -26,10 +26,11 @@ type WOp struct {
 
 // WHist is a weighted-trie history.
 type WHist struct {
-	Mode string `json:"mode,omitempty"` // generator mode (coverage bookkeeping only)
-	Uni  string `json:"uni,omitempty"`  // key universe: "" / "w" (WKeys), "head", "tail" (shape universes)
-	Sub  []int  `json:"sub,omitempty"`  // sorted selection of the universe's keys (ranks of the history index into it)
-	Ops  []WOp  `json:"ops"`
+	Mode  string `json:"mode,omitempty"`  // generator mode (coverage bookkeeping only)
+	Uni   string `json:"uni,omitempty"`   // key universe: "" / "w" (WKeys), "head", "tail" (shape universes)
+	Sub   []int  `json:"sub,omitempty"`   // sorted selection of the universe's keys (ranks of the history index into it)
+	Scale uint64 `json:"scale,omitempty"` // weight scale (0 = chosen by trace number); set by replays
+	Ops   []WOp  `json:"ops"`
 }
 
 // shapeKeys is a shape-complete universe: 16 keys whose nibbles at four
@@ -502,6 +503,9 @@ func RunWMPT(w *tr.Writer, in *tr.Interner, st *WStats, tid int, h WHist) {
 	st.Traces++
 	r := &wrun{w: w, in: in, st: st, tid: tid, kidx: map[string]int{}}
 	r.scale = []uint64{1, 1, 1000, 1 << 20, 1<<33 + 7, 1 << 40}[tid%6]
+	if h.Scale != 0 {
+		r.scale = h.Scale
+	}
 	r.keys = UniverseKeys(h.Uni, h.Sub)
 	for i, k := range r.keys {
 		r.kidx[string(k)] = i
@@ -518,7 +522,11 @@ func RunWMPT(w *tr.Writer, in *tr.Interner, st *WStats, tid int, h WHist) {
 		}
 		nibs[i] = row
 	}
-	r.emit(map[string]any{"op": "reset", "nkeys": len(r.keys), "empty": in.ID(bridge.EmptyState), "gmode": h.Mode, "uni": h.Uni, "scale": r.scale, "nibs": nibs})
+	sub := h.Sub
+	if sub == nil {
+		sub = []int{}
+	}
+	r.emit(map[string]any{"op": "reset", "nkeys": len(r.keys), "empty": in.ID(bridge.EmptyState), "gmode": h.Mode, "uni": h.Uni, "sub": sub, "scale": r.scale, "nibs": nibs})
 	st.Modes[h.Mode]++
 	var ckRoot []byte
 	var ckWeight uint64
@@ -533,6 +541,7 @@ func RunWMPT(w *tr.Writer, in *tr.Interner, st *WStats, tid int, h WHist) {
 			}
 			ev["w"] = wt
 			ev["v"] = string(val)
+			ev["tok"] = op.V // the generator's token (value with its explicit weight), for replays
 			ev["res"] = Guard(func() string {
 				if err := r.t.Update(r.keys[op.K], val, wt*r.scale); err != nil {
 					if err == wmpt.ErrNotFound {
@@ -711,6 +720,7 @@ func GenWMPT(r *rand.Rand, mode string) WHist {
 		if again && len(lastVals[k]) > 0 && r.Intn(5) == 0 {
 			// the value the key had last, under another weight
 			_, prev := wval(lastVals[k][len(lastVals[k])-1])
+			// (never weight 0: a live key that owns no block is invisible to the block-proof observation)
 			return fmt.Sprintf("%s^%d", prev, 1+r.Intn(5))
 		}
 		if again && len(lastVals[k]) > 0 && r.Intn(2) == 0 {
